@@ -28,7 +28,7 @@ from typing import Any, Callable, Iterable, Optional
 VERIF_DIR = os.path.dirname(os.path.dirname(os.path.abspath(__file__)))
 REPO_DIR = os.environ.get('VERIF_REPO', '/repo')
 REPO_SRC = os.path.join(REPO_DIR, 'src') + os.sep
-KNOWN_FILE = os.path.join(VERIF_DIR, 'KNOWN_FINDINGS.txt')
+KNOWN_FILE = os.environ.get('VERIF_KNOWN_FILE') or os.path.join(VERIF_DIR, 'KNOWN_FINDINGS.txt')
 
 
 class Violation(Exception):
